@@ -27,7 +27,7 @@ RULE = (
     "GreensFunctionCache on one persistent directory, reopen (new cache object), truncate(entry, fraction), zero_length(entry), "
     "drop a junk file, clear(). Requests = a base footprint request and every single-argument variant of the solver signature "
     "(source values, source shape, z, each of the five profiles, domain, levels scalar/list, modes, meas_pt, background, footprint "
-    "flag, analytic flag, halo None / explicit-equal-to-default / other / 0, precision, last-digit changes of meas_pt and Kz, and 1203-node columns whose level list / z differ only in the middle) plus generated ordered level selections of 1..4 levels. Model: memo of uncached results; map entry "
+    "flag, analytic flag, halo None / explicit-equal-to-default / other / 0, precision, last-digit changes of meas_pt and Kz, and 1203-node columns whose level list / z differ only in the middle) plus generated ordered level selections of 1..4 levels. Every answer is modified in place by the caller after it has been compared (a cache must not hand out arrays it keeps). Model: memo of uncached results; map entry "
     "file -> (request, intact). Invariants after every step: a cached solve returns exactly the uncached result (array_equal, "
     "dtypes, grids); a request that was solved with the cache attached (and whose entry was not damaged or cleared since) is a hit with no put - also when the solve had to repair a damaged entry; no solve raises, whatever files are damaged. "
     "Enumerated part: for each request kind a stored entry is truncated at sampled (quick) or every (thorough) byte offset and "
@@ -275,6 +275,13 @@ class History:
                     f"(entries on disk: {[(n, os.path.getsize(os.path.join(self.dir, n))) for n in self.entries()]})"]
         ref = _uncached(i)
         diff = _same(got, ref)
+        # the returned arrays belong to the caller, who may go on to normalise or convert them in place: nothing the
+        # cache keeps (in memory or on disk) may be affected by that, so every answer is scribbled on after comparison
+        inputs = [req["q"], req["z"], *req["profiles"]]
+        for arr in [*got[0], got[1], got[2]]:
+            if isinstance(arr, np.ndarray) and arr.flags.writeable and not any(np.shares_memory(arr, x) for x in inputs):
+                arr *= -3.0
+                arr += 7.0
         hit = ("hit",) in self.log
         puts = [e for e in self.log if e[0] == "put"]
         if diff:
